@@ -271,6 +271,9 @@ func c08redisRun(cs string) string {
 	if m["op"] == "rstart" {
 		return c08redisStart(m)
 	}
+	if m["op"] == "restore" {
+		return c08restore(m)
+	}
 	return "bad-op"
 }
 
@@ -323,6 +326,57 @@ func c08twoTier(m map[string]string) string {
 		return "got=pos"
 	}
 	return "got=neg"
+}
+
+// op=restore mem=<0|1> redis=<0|1> t1=<ttl> t2=<ttl>: a positive answer with ttl t1 is stored, 1.2 s later a
+// positive answer with ttl t2 for the same question (what a successful refresh does): a plain store REPLACES the
+// entry in every tier — the lookup that follows carries the second answer's ttl (t2, minus at most 2 s), whether t2
+// is longer or shorter than what was left of t1.                      out: got=<new|old|miss> ## ttl=<n>
+func c08restore(m map[string]string) string {
+	t1, t2 := uint32(atoi(m["t1"])), uint32(atoi(m["t2"]))
+	memSize := 0
+	if m["mem"] == "1" {
+		memSize = 1 << 22
+	}
+	cfg := &router.Config{
+		Upstreams: []router.UpstreamConfig{{Tag: "u", Addr: "udp://127.0.0.1:9"}},
+		Rules:     []router.RuleConfig{{Forward: "u"}},
+		Cache:     router.CacheConfig{MemSize: memSize},
+	}
+	var rs *c08redis
+	if m["redis"] == "1" {
+		rs = c08newRedis(0)
+		defer rs.close()
+		cfg.Cache.Redis = "redis://" + rs.l.Addr().String()
+	}
+	r, err := router.VerifRun(cfg)
+	if err != nil {
+		return "fixture-error"
+	}
+	defer r.Close()
+	nonce := c08nonce.Add(1)
+	q := c08question(nonce)
+	name := c08name(nonce, 0)
+	a1 := c08mkMsg(name, 1, dns.RcodeSuccess, false, []c08rr{{typ: dns.TypeA, ttl: t1}}, nil, nil)
+	a2 := c08mkMsg(name, 2, dns.RcodeSuccess, false, []c08rr{{typ: dns.TypeA, ttl: t2}}, nil, nil)
+	defer func() { dnsmsg.ReleaseMsg(a1); dnsmsg.ReleaseMsg(a2); dnsmsg.ReleaseQuestion(q) }()
+	r.CacheStore(q, c08remote.Addr(), a1)
+	time.Sleep(1200 * time.Millisecond)
+	r.CacheStore(q, c08remote.Addr(), a2)
+	time.Sleep(150 * time.Millisecond)
+	g, _, _ := r.CacheGet(q, c08remote)
+	if g == nil {
+		return "got=miss"
+	}
+	defer dnsmsg.ReleaseMsg(g)
+	ttl := uint32(0)
+	if len(g.Answers) == 1 {
+		ttl = g.Answers[0].Hdr().TTL
+	}
+	if ttl <= t2 && ttl+2 >= t2 {
+		return fmt.Sprintf("got=new ## ttl=%d", ttl)
+	}
+	return fmt.Sprintf("got=old ## ttl=%d", ttl)
 }
 
 // op=rstart wait=<ms>: redis only; an answer stored `wait` ms after start-up and looked up 150 ms later is a hit —
@@ -533,6 +587,11 @@ func c08redisGen(r *rand.Rand, thorough bool, emit func(c, cat string)) {
 		emit(fmt.Sprintf("op=twotier big=%d rcode=%d", big, []int{3, 2, 5}[r.Intn(3)]), fmt.Sprintf("twotier-big%d", big))
 	}
 	emit(fmt.Sprintf("op=rstart wait=%d", []int{0, 100, 400}[r.Intn(3)]), "first-second")
+	// a successful refresh replaces the entry in every tier, with a longer and with a shorter ttl
+	for _, c := range []string{"mem=1 redis=0", "mem=1 redis=1", "mem=0 redis=1"} {
+		emit(fmt.Sprintf("op=restore %s t1=%d t2=300", c, 8+r.Intn(8)), "restore-longer")
+		emit(fmt.Sprintf("op=restore %s t1=300 t2=%d", c, 5+r.Intn(8)), "restore-shorter")
+	}
 }
 
 func init() {
